@@ -90,6 +90,12 @@ func (c05Driver) Generate(t *tape.Tape, tier string) core.Case {
 		c.Mode = "yangentry"
 	}
 	g := model.Generate(t.Sub("scenario"), profGeneral(t.Sub("profile")))
+	if tt := t.Sub("twins"); tt.Chance(1, 25) {
+		// twin modules: a cycle of groupings or typedefs through 2-3 modules of
+		// identical layout, so that its members stand at the same line and column
+		// of different files (ties in anything that orders by position)
+		g = &model.Generated{S: twinCycle(tt), Injected: []string{"twin-cycle"}}
+	}
 	c.Scenario = g.S
 	c.Injected = g.Injected
 	// order trap: an older revision of one module is part of the set as well
@@ -478,4 +484,34 @@ func (c05Driver) Describe(cc core.Case) string {
 		fmt.Fprintf(&sb, "reference conflicts: %v\n", cp.Conflicts)
 	}
 	return sb.String()
+}
+
+func twinCycle(t *tape.Tape) *model.Scenario {
+	k := t.Range(2, 3)
+	s := &model.Scenario{}
+	typedefs := t.Chance(1, 2)
+	for i := 0; i < k; i++ {
+		m := &model.Mod{Name: fmt.Sprintf("m%d", i), Prefix: fmt.Sprintf("p%d", i), NS: fmt.Sprintf("urn:m%d", i)}
+		s.Mods = append(s.Mods, m)
+	}
+	for i, m := range s.Mods {
+		nxt := s.Mods[(i+1)%k]
+		if typedefs {
+			m.Typedefs = append(m.Typedefs, &model.Typedef{Name: "t", Type: &model.Type{Ref: model.Ref{Mod: nxt.Name, Name: "t"}}})
+			m.Body = append(m.Body, &model.Node{Kind: model.KLeaf, Name: fmt.Sprintf("l%d", i), Type: &model.Type{Ref: model.Ref{Mod: m.Name, Name: "t"}}})
+		} else {
+			m.Groupings = append(m.Groupings, &model.Grouping{Name: "g", Body: []*model.Node{
+				{Kind: model.KLeaf, Name: fmt.Sprintf("x%d", i), Type: &model.Type{Ref: model.Ref{Name: "string"}}},
+				{Kind: model.KUses, Uses: &model.Ref{Mod: nxt.Name, Name: "g"}},
+			}})
+			if t.Chance(1, 2) {
+				m.Body = append(m.Body, &model.Node{Kind: model.KContainer, Name: fmt.Sprintf("c%d", i), Kids: []*model.Node{{Kind: model.KUses, Uses: &model.Ref{Mod: m.Name, Name: "g"}}}})
+			}
+		}
+		// every module must import exactly one other module so that the layouts agree
+		if k == 2 || true {
+			_ = nxt
+		}
+	}
+	return s
 }
